@@ -49,6 +49,17 @@ type c05Layout struct {
 }
 
 func c05Files(ds []jr.Dir, l c05Layout) (map[string]string, string) {
+	fs, root := c05FilesRaw(ds, l)
+	if c05Base != "" {
+		fs[root] = c05Base + fs[root]
+	}
+	return fs, root
+}
+
+// c05Base is rendered at the top of the root file of every layout (not permuted).
+var c05Base string
+
+func c05FilesRaw(ds []jr.Dir, l c05Layout) (map[string]string, string) {
 	if l.Assign == nil {
 		var b strings.Builder
 		for _, i := range l.Order {
@@ -179,6 +190,7 @@ type c05Case struct {
 	Dirs   []jr.Dir
 	Layout c05Layout
 	Picks  []int `json:",omitempty"`
+	Base   string `json:",omitempty"`
 }
 
 func subsets(n, k int) [][]int {
@@ -251,8 +263,18 @@ func permutationsOf(n int) [][]int {
 func c05Run(e *core.Env) {
 	runLitmus(e)
 	drv := e.Driver()
-	pool := c05Pool()
-	maxK := core.Pick(e, 3, 4)
+	all := c05Pool()
+	// family 1: opens are permuted/distributed like everything else
+	c05Base = ""
+	c05Family(e, drv, all, core.Pick(e, 3, 4), "all")
+	// family 2: the three opens stay at the top of the root file, so that small
+	// journals are valid and their reports carry amounts
+	c05Base = jr.RenderAll(all[:3])
+	c05Family(e, drv, all[3:], core.Pick(e, 3, 4), "base-opens")
+	c05Base = ""
+}
+
+func c05Family(e *core.Env, drv *core.Driver, pool []jr.Dir, maxK int, tag string) {
 	schedEvery := core.Pick(e, 211, 97)
 	bounds := core.Pick(e, core.Bounds{Preempt: 1, Free: 2, Total: 2}, core.Bounds{Preempt: 2, Free: 2, Total: 3})
 	journalNo := 0
@@ -303,7 +325,7 @@ func c05Run(e *core.Env) {
 				if e.CaseNo()%20011 == 0 {
 					e.Sample(map[string]any{"journal": jr.ShortAll(ds), "layout": l})
 				}
-				cs := c05Case{Dirs: ds, Layout: l}
+				cs := c05Case{Dirs: ds, Layout: l, Base: c05Base}
 				if ab != "" {
 					e.Violation("C05:abnormal", ab+"\n"+fmt.Sprint(files), cs, nil)
 					continue
@@ -362,7 +384,7 @@ func c05Run(e *core.Env) {
 			}
 		}
 	}
-	e.SetBound("directives_per_journal", maxK)
+	e.SetBound("directives_per_journal_"+tag, maxK)
 }
 
 func c05Replay(e *core.Env, data json.RawMessage) (bool, string) {
@@ -371,6 +393,7 @@ func c05Replay(e *core.Env, data json.RawMessage) (bool, string) {
 		return false, err.Error()
 	}
 	drv := e.Driver()
+	c05Base = cs.Base
 	id := make([]int, len(cs.Dirs))
 	for i := range id {
 		id[i] = i
